@@ -92,7 +92,7 @@ KILL = [
      'C14:len-counts-opening-brackets-and-dots'),
     ('len-forgets-dots', ['C14'], 'selfies/utils/selfies_utils.py::len_selfies', 'selfies/utils/selfies_utils.py',
      'return selfies.count("[") + selfies.count(".")', 'return selfies.count("[")',
-     'C14:len-zero-iff-no-bracket-no-dot'),
+     'C14:len-counts-opening-brackets-and-dots'),
 ]
 
 # edits that do not change behaviour: every clause must still be proved (guards against brittle proofs)
